@@ -12,7 +12,7 @@ thicknesses) and the option handling of `fourier_translation_operator`.  Core Le
                        values — neither changes a value of the ramp (in exact arithmetic).
 -/
 namespace QuantemModel.PtychoOps
-open QuantemModel
+open QuantemModel QuantemModel.Dft
 
 section Carrier
 variable {R : Type} [Num R]
@@ -35,6 +35,19 @@ def translationOperatorOpt (shape : List Nat) (expandDim : Bool) (r c : R) : Nat
   let nr := (shape.reverse.drop 1).headD 0
   let nc := shape.reverse.headD 0
   (translationExtraAxes shape.length expandDim, translationOperator nr nc r c)
+
+/-! ### tie to the mechanically traced source (Generated/PtychoKernels.lean) -/
+
+/-- the `(k_r, k_c)` numerators of the model's ramp: `fftfreq(nr)[i]·nr`, `fftfreq(nc)[j]·nc` -/
+def freqTable (nr nc : Nat) : List (List (Int × Int)) :=
+  (List.range nr).map fun i => (List.range nc).map fun j => (fftfreqInt nr i, fftfreqInt nc j)
+
+/-- the ramp a table of frequency numerators stands for:
+pixel `(k_r, k_c)` ↦ `exp(-2πi·(k_r/nr)·r) · exp(-2πi·(k_c/nc)·c)` -/
+def rampOfTable (nr nc : Nat) (tbl : List (List (Int × Int))) (r c : R) : Img R :=
+  tbl.map fun row => row.map fun k =>
+    Cx.cis (Num.ofRat (-2) * Num.pi * Num.ofRat ((k.1 : Rat) / (nr : Rat)) * r)
+      * Cx.cis (Num.ofRat (-2) * Num.pi * Num.ofRat ((k.2 : Rat) / (nc : Rat)) * c)
 
 end Carrier
 end QuantemModel.PtychoOps
